@@ -40,11 +40,24 @@ def skeleton(guard):
 def _sk_subsumed(need, have):
     """every needed condition has a current one with the same tested function and outcome whose arguments apply at least
     the functions recorded (a current spelling may expand a local into its definition, never the other way round)"""
-    hs = [skeleton(g) for g in have]
-    for g in need:
+    # literal matches first; what is left is matched by skeleton, one current condition per needed one (two recorded bounds
+    # `Lt(from,len)` and `Lt(to,len)` are not both satisfied by one current `Lt(from,len)`)
+    need, have = set(need), set(have)
+    left_have = [skeleton(g) for g in sorted(have - need)] + [skeleton(g) for g in sorted(have & need)]
+    used = [False] * len(left_have)
+    lit = len(have - need)
+    for i in range(lit, len(left_have)):
+        used[i] = True                      # consumed by their literal partners
+    for g in sorted(need - have):
         h0, inner, al = skeleton(g)
-        if not any(h0 == x[0] and al == x[2] and inner <= x[1] for x in hs):
+        hit = None
+        for i, x in enumerate(left_have):
+            if not used[i] and h0 == x[0] and al == x[2] and inner <= x[1]:
+                hit = i
+                break
+        if hit is None:
             return False
+        used[hit] = True
     return True
 
 
@@ -59,14 +72,38 @@ def _canon(g):
     return g
 
 
-def guards_hold(recorded, current):
+def _fn_names(f):
+    return {v.get("name") for v in (f.d.get("debug") or []) if v.get("name")}
+
+
+def guards_hold(recorded, current, names=None):
     """every recorded condition is still among the current ones — literally, or after dropping the spelling of
     arguments (a renamed loop variable changes `Lt(i,len)` into `Lt(idx,len)`)"""
     need, have = {_canon(g) for g in recorded}, {_canon(g) for g in current}
     # "an iteration before this point has run to its end" (`next()` answered None) constrains no value the site uses: a loop
     # turned into an iterator adaptor (`for_each`, `collect`) has no such edge any more
     need = {g for g in need if not re.match(r"^Iterator::next\(.*\) in \['None'\]$", g)}
-    return need <= have or _sk_subsumed(need, have)
+    if need <= have or _sk_subsumed(need, have):
+        return True
+    if names is not None:
+        # a renamed local: a recorded bare-variable condition whose variable the function no longer has is matched by a current
+        # bare-variable condition with the same outcome on a variable the recorded conditions do not know
+        bare = re.compile(r"^([A-Za-z_]\w*) in (\[.*\])$")
+        rec_vars = {m.group(1) for m in (bare.match(g) for g in need) if m}
+        gone = [g for g in need - have if bare.match(g) and bare.match(g).group(1) not in names]
+        if gone and len(gone) == len([g for g in need - have if bare.match(g)]):
+            new_ = [g for g in have - need if bare.match(g) and bare.match(g).group(1) not in rec_vars]
+            n2, h2 = set(need), set(have)
+            for g in gone:
+                out_ = bare.match(g).group(2)
+                cand = [x for x in new_ if bare.match(x).group(2) == out_]
+                if len(cand) != 1:
+                    return False
+                n2.discard(g)
+                h2.discard(cand[0])
+                new_.remove(cand[0])
+            return n2 <= h2 or _sk_subsumed(n2, h2)
+    return False
 
 
 class Inventory:
@@ -116,7 +153,7 @@ class Inventory:
                     continue
                 full = self.prefix + f.path + "/" + k
                 ent = self.table.get(full)
-                if isinstance(ent, dict) and guards_hold(ent.get("guards", []), FL.guard_signature(self.F, f, b, d)):
+                if isinstance(ent, dict) and guards_hold(ent.get("guards", []), FL.guard_signature(self.F, f, b, d), _fn_names(f)):
                     out.add(full)
             self._cur[key] = out
         return self._cur[key]
@@ -128,7 +165,7 @@ class Inventory:
         claimed = self._claimed(f)
         for k in sorted(self.table):
             if k.startswith(base) and k not in claimed and k not in self.used and isinstance(self.table[k], dict):
-                if guards_hold(self.table[k].get("guards", []), guards) and self.table[k].get("guards"):
+                if guards_hold(self.table[k].get("guards", []), guards, _fn_names(f)) and self.table[k].get("guards"):
                     self.used.add(k)
                     return self.table[k]
         return None
